@@ -1,7 +1,7 @@
 from .base import *
 
 ID = 'C12'
-THEOREMS = ['C12_rotate', 'C12_rotate_total', 'C12_full_turn', 'C12_reflect', 'C12_reflect_length_free', 'C12_scale_rotate', 'C12_reflect_law', 'C12_rotate_direction', 'C12_reflect_direction']
+THEOREMS = ['C12_rotate', 'C12_rotate_total', 'C12_full_turn', 'C12_reflect', 'C12_reflect_length_free', 'C12_scale_rotate', 'C12_reflect_law', 'C12_rotate_direction', 'C12_reflect_direction', 'C12_double_reflection']
 OWNED = {'GRotate', 'GReflect', 'GScaleRotate'}
 RULE = ('numbers, axes and rotation angles from the C01 domain (all grades, remainders zero / threshold / arbitrary, blades to 2^40): rotate vs angle addition, composition of two rotations, full turn; '
         'reflect across an axis, across the rescaled axis, across the negated axis, twice, on-axis; scale_rotate with factors {0,-0,+-1,+-tiny,+-huge,random}; repeated reflections/rotations (histories of up to 8/40 steps). '
